@@ -311,7 +311,9 @@ func concludeSim(prop, tier string, seed int64, ts tierSize, merged *batchOut, t
 	for _, v := range merged.Viol {
 		switch {
 		case !v.Concerns(prop):
-			other[v.Prop]++
+			if v.Known == "" {
+				other[v.Prop]++
+			}
 		case v.Known != "":
 			known = append(known, v)
 		default:
